@@ -27,6 +27,11 @@ CLAIMS.update({
  "C15": ("model_checking", SEQTXT + "C15: long-arc models, plain diagram vs pooled (cache off/on): termination, same optimum, default-completed solution feasible.", "6.C15", "TLA+ trace validation of paired plain/pooled runs on long-arc models"),
  "C19": ("model_checking", SEQTXT + "C19: cutoff series k=1..K+1; consecutive outcomes must be monotone (lb non-decreasing, ub non-increasing) and the last one exact with both bounds at the optimum.", "6.C19", "cutoff-point enumeration + TLA+ trace validation of consecutive outcomes"),
 })
+PARTXT = "Real ParallelSolver runs under a deterministic scheduler built on add-only hooks in parallel.rs (every lock acquisition is a scheduling point; random, PCT-style and replayed schedules; cutoff raised at every step of recorded schedules; thread counts changed after construction) and free-running real threads; TLC replays each run through ParBnB.tla / TracePar.tla: snapshot agreement after each lock acquisition, step-wise invariants, and the outcome against the oracle. "
+CLAIMS.update({
+ "C03": ("model_checking", PARTXT + "C03: every uninterrupted run must be exact with the oracle's optimum.", "6.C03", "deterministic scheduling of the real threads + TLA+ trace validation against ParBnB/DPModel"),
+ "C04": ("model_checking", PARTXT + "C04: deadlock = quiescent scheduler state with parked workers and nobody runnable (definitive); worker panic, livelock (step budget), complete-only-when-idle and never-wait-when-nothing-in-progress are checked on every run.", "6.C04", "deterministic scheduling with deadlock detection + TLA+ trace validation of the protocol invariants"),
+})
 REASONS = {}
 checks = []
 for p in props:
